@@ -10,7 +10,10 @@ EXPECT = {
     'C02': [('R02.1', 'p::MirrorBad', 'decoder reads (u32, u8), encoder writes (u8, u32)'),
             ('R02.1', 'p::Tagged', 'tag 1 is written for B but every byte != 0 decodes as B')],
     'C03': [('R03.1', 'p::Tagged', 'catch-all arm accepts instead of rejecting'),
-            ('R03.5', 'p::Swallow', 'decode error turned into a default with .ok()')],
+            ('R03.5', 'p::Swallow', 'decode error turned into a default with .ok()'),
+            ('R03.3', 'p::Panicky as Decode>::decode / call unwrap', 'unwrap of an Option an input byte controls'),
+            ('R03.3', 'p::Panicky as Decode>::decode / BoundsCheck', 'table indexed by a decoded byte without a bound'),
+            ('R03.3', 'p::Panicky as Decode>::decode / Overflow Mul', 'unchecked multiplication of a decoded u32')],
     'C05': [('R05.3', 'p::Cyc', 'Encode impl without any output method')],
     'C06': [('R06.1', 'p::LayoutObs', 'encoder observes Vec::capacity'),
             ('R06.2', 'p::Ambient', 'encoder reads a static')],
@@ -66,6 +69,10 @@ def findings_on_fixture(cx):
         c03.check_tags(sub, fx, S, D)
         c03.check_errprop(sub, fx)
         c02.check_mirror(sub, fx, S, D)
+        from . import panics
+        from .. import facts as _fm
+        ownp = {f['path'] for f in fx.fns if f['path'].startswith('p::') or '<p::' in f['path']}
+        panics.check_panics(sub, fx, _fm.repo_root(), label='fx', only_fns=lambda f: f['path'] in ownp)
         for i in own:
             if i['trait'] and tname(i['trait']) == 'Encode':
                 src = S.source_term(i)
